@@ -269,7 +269,7 @@ func (x *xlate) num(e ast.Expr) string {
 		case token.MUL:
 			return "(" + a + " * " + b + ")"
 		case token.SHL:
-			return "(" + a + " * 2 ^ (" + b + ").toNat)"
+			return "(" + a + " * 2 ^ (" + b + " : Int).toNat)"
 		}
 	}
 	return x.fail("unsupported numeric expression %s", show(e))
